@@ -41,6 +41,9 @@ def main():
                 for fn in ('patch.diff', 'demo.py'):
                     if os.path.exists(os.path.join(d, fn)):
                         shutil.copy(os.path.join(d, fn), os.path.join(out, fn))
+                if e.get('rebased') and os.path.exists(os.path.join(d, 'patch.rebased.diff')):
+                    shutil.copy(os.path.join(d, 'patch.diff'), os.path.join(out, 'patch.original.diff'))
+                    shutil.copy(os.path.join(d, 'patch.rebased.diff'), os.path.join(out, 'patch.diff'))
                 meta_out = {
                     'property': target, 'summary': meta.get('summary', ''), 'needs': meta.get('needs', ''),
                     'origin': 'written by a sub-agent that saw only the property text and its own worktree' if meta else
